@@ -35,6 +35,7 @@ def parseOp (tok : String) : Option HOp :=
     else if c = 'F' then (if arg = "" then some .strFree else none)
     else if c = 'V' then (if arg = "c" then some (.send true) else if arg = "n" then some (.send false) else none)
     else if c = 'W' then (if arg = "0" then some (.write true) else if arg = "1" then some (.write false) else none)
+    else if c = 'E' then (if arg = "0" then some (.estab false) else if arg = "1" then some (.estab true) else none)
     else if c = 'A' then arg.toNat?.map .obsAdd
     else if c = 'B' then arg.toNat?.map .obsDel
     else none
